@@ -199,8 +199,11 @@ class AssociationAcceptor(socketserver.StreamRequestHandler, Association):
         acceptable_pr_contexts"""
         user_items = assoc_req.variable_items[-1]
         max_pdu_sub_item = user_items.user_data[0]
-        if self.max_pdu_length > max_pdu_sub_item.maximum_length_received:
-            self.max_pdu_length = max_pdu_sub_item.maximum_length_received
+        # 0 means 'no limit': requestor's value restricts only if it's not 0
+        peer_max_pdu_length = max_pdu_sub_item.maximum_length_received
+        if peer_max_pdu_length and (not self.max_pdu_length or
+                                    self.max_pdu_length > peer_max_pdu_length):
+            self.max_pdu_length = peer_max_pdu_length
         max_pdu_sub_item.maximum_length_received = self.max_pdu_length
 
         # analyse proposed presentation contexts
@@ -389,7 +392,8 @@ class AssociationRequester(Association):
         user_data = response.variable_items[-1].user_data
         try:
             max_pdu_length = user_data[0].maximum_length_received
-            if max_pdu_length and self.max_pdu_length > max_pdu_length:
+            if max_pdu_length and (not self.max_pdu_length or
+                                   self.max_pdu_length > max_pdu_length):
                 self.max_pdu_length = max_pdu_length
         except IndexError:
             pass
